@@ -35,7 +35,11 @@ def build_kb(kbs):
         if kd == 0:
             objs[i] = Proposition(f"p{i}", alpha=float(sx.q(p[0])))
         elif kd == 1:
-            objs[i] = Not(objs[ops[0]], alpha=float(sx.q(p[0])))
+            # both documented ways of giving a negation its alpha
+            if i % 2:
+                objs[i] = Not(objs[ops[0]], activation={"alpha": float(sx.q(p[0]))})
+            else:
+                objs[i] = Not(objs[ops[0]], alpha=float(sx.q(p[0])))
         elif kd in KCLS:
             objs[i] = KCLS[kd](*[objs[j] for j in ops], activation=activation(p))
         elif kd == 5:
